@@ -7,14 +7,14 @@ cd "$(dirname "$0")/.."
 SEC='Context {D : Type}.'
 python3 tools/mkprops.py C01 "Arbitrary input is processed totally: no panic, overflow, hang or internal error" "From VF Require Import Base Gen_Errors Lexer Response Tree Conv Lists Lexer_proofs Tree_proofs Conv_proofs Lists_proofs.
 Open Scope N_scope." Lexer_proofs:lex_next_no_panic,lex_progress,lex_total,lex_params_total,tokenize_shape Tree_proofs:run_tokens_total,run_total,pull_only_data,pull_req_only_data Conv_proofs:conv_total Lists_proofs:nlist_total,clist_total,spec_values_total,spec_tuple_total --section "$SEC"
-python3 tools/mkprops.py C02 "Compound-command header paths resolve to exactly the SCPI-designated handler" "From VF Require Import Base Gen_Errors Lexer Mnemonic Grammar Response Tree HeaderSpec Header_proofs.
-Open Scope N_scope." Header_proofs:resolve_sound,resolve_undefined,exec_undefined_invokes_nothing,resolve_complete,designation_unique,default_branch_omitted,default_leaf_omitted,node_spelled_out,unit_absolute,unit_common_keeps_context,unit_relative,message_starts_at_root --section "$SEC"
+python3 tools/mkprops.py C02 "Compound-command header paths resolve to exactly the SCPI-designated handler" "From VF Require Import Base Gen_Errors Lexer Mnemonic Grammar Response Tree HeaderSpec Header_proofs MessageSpec Message_proofs.
+Open Scope N_scope." Header_proofs:resolve_sound,resolve_undefined,exec_undefined_invokes_nothing,resolve_complete,designation_unique,default_branch_omitted,default_leaf_omitted,node_spelled_out,unit_absolute,unit_common_keeps_context,unit_relative,message_starts_at_root Message_proofs:message_semantics --section "$SEC"
 python3 tools/mkprops.py C04 "Lexing is faithful: element boundaries and types follow IEEE 488.2 section 7" "From VF Require Import Base Gen_Errors Fmt Lexer Grammar Lexer_proofs Grammar_proofs.
 Open Scope N_scope." Grammar_proofs:lex_faithful Lexer_proofs:lex_total,lex_params_total,lex_progress,tokenize_shape,lex_error_class,mnemonic_13,chardata_13,unterminated_string,non_ascii_in_string,non_ascii_outside,block_truncated,block_bad_header,doubled_colon,colon_in_data,colon_in_common,comma_in_header,doubled_comma,comma_after_header_sep,missing_separator_after_chardata,missing_separator_after_string
-python3 tools/mkprops.py C05 "Units run in order; the first error aborts the message and is reported once" "From VF Require Import Base Gen_Errors Lexer Response Tree Tree_proofs.
-Open Scope N_scope." Tree_proofs:hook_exactly_once,exec_invokes_at_most_once,first_error_aborts,stream_error_aborts,trace_bounded_by_units,leftover_is_108 --section "$SEC"
-python3 tools/mkprops.py C06 "A handler sees exactly its own unit's parameters; wrong arity is an error" "From VF Require Import Base Gen_Errors Lexer Response Tree Tree_proofs.
-Open Scope N_scope." Tree_proofs:pull_only_data,pull_req_only_data,pull_consumes_only_data,pull_req_consumes_only_data,pull_first_datum,pull_next_datum,pull_at_unit_end,handler_stays_in_unit,leftover_is_108 --section "$SEC"
+python3 tools/mkprops.py C05 "Units run in order; the first error aborts the message and is reported once" "From VF Require Import Base Gen_Errors Lexer Grammar Response Tree Tree_proofs HeaderSpec MessageSpec Message_proofs.
+Open Scope N_scope." Tree_proofs:hook_exactly_once,exec_invokes_at_most_once,first_error_aborts,stream_error_aborts,trace_bounded_by_units,leftover_is_108 Message_proofs:message_semantics,message_semantics_tokens,layout_independent,spec_units_ok_trace,spec_units_err_trace,spec_units_trace_extends --section "$SEC"
+python3 tools/mkprops.py C06 "A handler sees exactly its own unit's parameters; wrong arity is an error" "From VF Require Import Base Gen_Errors Lexer Grammar Response Tree Tree_proofs HeaderSpec MessageSpec Message_proofs.
+Open Scope N_scope." Tree_proofs:pull_only_data,pull_req_only_data,pull_consumes_only_data,pull_req_consumes_only_data,pull_first_datum,pull_next_datum,pull_at_unit_end,handler_stays_in_unit,leftover_is_108 Message_proofs:message_semantics,spec_prog_consumes_prefix --section "$SEC"
 FL='@(* the float the model reads for a decimal literal IS the correctly rounded IEEE-754 value (Flocq 4.1) *)
 From Coq Require Import Reals.
 From Flocq Require Import Core.Core IEEE754.BinarySingleNaN.
